@@ -306,4 +306,6 @@ func runSeq(prop, tier string, sc *core.Scratch, ev *core.Evidence, rep *core.Re
 	return 0, nil
 }
 
-func getenv(k string) string { return strings.TrimSpace(strings.Join(strings.Fields(envLookup(k)), " ")) }
+func getenv(k string) string {
+	return strings.TrimSpace(strings.Join(strings.Fields(envLookup(k)), " "))
+}
